@@ -31,6 +31,12 @@ SHORT = {
  "r3_C11": ("clone_from: hasher closure built from the destination's old builder", "hashers with different state and a source mid-resize (or hashbrown's re-insert path)"),
  "r3_C13": ("clear: early return when the MAIN table is empty", "mid-resize, main emptied (or just reserved), old table non-empty"),
  "r3_C16": ("same change as r3_C13 (independent agent)", "deserialize_in_place into such a destination"),
+ "r4_C01": ("RawVacantEntryMut::insert_with_hasher: re-hash closure `|_| hash` (the new key's hash) handed to the raw insert", "insert_with_hasher while a resize is pending or starting: carried elements filed under the wrong hash"),
+ "r4_C12": ("same change as r4_C01 (independent agent)", "as r4_C01; entry(k) Vacant for present keys"),
+ "r4_C08": ("set::Drain::size_hint returns (0, upper)", "size_hint() on a HashSet drain with elements left (any phase)"),
+ "r4_C09": ("DrainFilterInner::next re-creates its iterator after a remove released the old table", "drain_filter whose predicate matches every old-table element and keeps a main-table one: predicate runs twice"),
+ "r4_C13": ("HashMap::insert on a key found in the OLD table: erase + fresh insert, returns None", "re-insert of an element that is still in the old table (HashSet::insert returns true)"),
+ "r4_C14": ("PartialEq for HashMap: length guard `>` instead of `!=`", "left operand a strict sub-map of the right one"),
  "d1": ("revert of fix dbcf4bd", "retain away the old table; shrink_to_fit; insert"),
  "d35": ("revert of fix dc3af20", "replace_entry_with on an old-table element (panic / beyond cursor group)"),
  "d2": ("revert of fix ce142c0", "HashSet<()>: insert; reserve(10); remove"),
